@@ -179,13 +179,13 @@ func C09(tier rt.Tier) int {
 	if tier == rt.Quick {
 		runs = []cfg{
 			{name: "6keys-mem+commit", keys: []int{0, 1, 2, 3, 4, 5}, vals: []string{"a", "b"}, levels: []int{0, 2, 64}, gc: true, reload: true, rootOp: true, depth: 4, maxNoDup: 3},
-			{name: "3keys-deep", keys: []int{0, 1, 2}, vals: []string{"a", "b"}, levels: []int{0, 1, 3}, gc: true, reload: true, rootOp: true, depth: 6, maxNoDup: 4},
+			{name: "3keys-deep", keys: []int{0, 1, 2}, vals: []string{"a", "b", "c"}, levels: []int{0, 1, 3}, gc: true, reload: true, rootOp: true, depth: 6, maxNoDup: 4},
 		}
 	} else {
 		per = 8 * time.Minute
 		runs = []cfg{
 			{name: "6keys-mem+commit", keys: []int{0, 1, 2, 3, 4, 5}, vals: []string{"a", "b"}, levels: []int{0, 1, 2, 3, 64}, gc: true, reload: true, rootOp: true, depth: 6, maxNoDup: 4},
-			{name: "3keys-deep", keys: []int{0, 1, 2}, vals: []string{"a", "b"}, levels: []int{0, 1, 2, 3, 64}, gc: true, reload: true, rootOp: true, depth: 9, maxNoDup: 5},
+			{name: "3keys-deep", keys: []int{0, 1, 2}, vals: []string{"a", "b", "c"}, levels: []int{0, 1, 2, 3, 64}, gc: true, reload: true, rootOp: true, depth: 9, maxNoDup: 5},
 		}
 	}
 	for _, c := range runs {
